@@ -309,7 +309,9 @@ class InElastic(_Simu):
             Terminal.MyPrintError(f"The result '{result}' is not implemented yet.")
             return None  # type: ignore [return-value]
 
-        return self.Results_Reshape_values(values, nodeValues)
+        # flat nodal vectors (Nn * dof_n,) cannot be told from element values when Nn * dof_n == Ne
+        storedOnNodes = True if result in ["displacement"] else None
+        return self.Results_Reshape_values(values, nodeValues, storedOnNodes)
 
     def Results_Iter_Summary(
         self,
